@@ -35,7 +35,7 @@ func checkC13(c *km.Ctx) {
 	r.Rule("R-C13-2", "validator verdict: true only from a configured-domain match by the shared host predicate and a configured-pattern match (pattern match alone only when no domains are configured; domain match alone only when no patterns are configured)", 1)
 	r.Rule("R-C13-3", "host predicate: true only for host == domain, or HasSuffix(host, \".\"+domain), or HasSuffix(host, domain) when the configured domain itself starts with a dot", 1)
 	r.Rule("R-C13-4", "siblings agree: redirect validator, client CORS test and generic CORS test all decide the host with the shared predicate applied to parsedURL.Hostname() and a configured domain, after scheme == https", 1)
-	checkConfigKeys(c, "R-C13-2", "where a client may be redirected", "OpenIDConnectClientConfig.AllowedRedirectDomains", "OpenIDConnectClientConfig.AllowedRedirectURLRE", "OpenIDConnectIDPConfig.Client", "AppConfigFile.OpenIDConnectIDP")
+	checkConfigKeys(c, "R-C13-2", "where a client may be redirected", "openid_connect_idp.clients.allowed_redirect_")
 	r.Rule("R-C13-5", "the authorization handler issues a code only on the validator's true edge for the requesting client and redirects to the validated string", 1)
 
 	vf := c.MustFunc("R-C13-1", "cmd/keymasterd", "(*OpenIDConnectClientConfig).CanRedirectToURL")
